@@ -23,6 +23,51 @@ def canary(row, rng):
     return row
 
 
+# ---- DefaultCycle.tla: a field default written in terms of the enclosing struct ----------
+def render_list(tree, kind):
+    items = [("{\"f\": %s}" % render_list(l["val"], kind)) if l["given"] else "{}" for l in tree]
+    if kind == "map":
+        return "{" + ", ".join('"k%d": %s' % (i + 1, it) for i, it in enumerate(items)) + "}"
+    return "[" + ", ".join(items) + "]"
+
+
+DC_KINDS = {
+    "list": ("struct C {\n  1: optional list<C> f = %s\n}\n", "list"),
+    "required": ("struct C {\n  1: required list<C> f = %s\n}\n", "list"),
+    "exception": ("exception C {\n  1: optional list<C> f = %s\n}\n", "list"),
+    "typedef": ("typedef list<C> L\nstruct C {\n  1: optional L f = %s\n}\n", "list"),
+    "map": ("struct C {\n  1: optional map<string, C> f = %s\n}\n", "map"),
+    "second-field": ("struct C {\n  1: optional i32 n = 1\n  2: optional list<C> f = %s\n  3: optional string s\n}\n", "list"),
+    "via-const": ("const list<C> d = %s\nstruct C {\n  1: optional list<C> f = d\n}\n", "list"),
+}
+
+
+def default_cycle_cases(ctx, rng):
+    import c06
+    r = vlib.model_check(ctx, "DefaultCycle", "MCDefaultCycle%s.cfg" % ("" if ctx.quick() else "_thorough"), timeout=1500, workers=8)
+    neg = vlib.tlc(ctx, "DefaultCycle", "MCDefaultCycle_negctl.cfg", timeout=600, allow_error=True)
+    if "Invariant NoOverflow is violated" not in neg["out"]:
+        raise vlib.Inconclusive("negative control failed: a frame that lowers a flag it did not raise does not overflow in DefaultCycle.tla")
+    ctx.notes.append("negative control: DefaultCycle.tla with ClearsAlways = TRUE violates NoOverflow (as expected)")
+    trees = c06.parse_cases(r["out"])
+    if len(trees) < 100:
+        raise vlib.Inconclusive("DefaultCycle.tla emitted %d cases" % len(trees))
+    cases = []
+    kinds = sorted(DC_KINDS)
+    for i, t in enumerate(trees):
+        for kind in (kinds if ctx.quick() or not t["expect"] else [kinds[i % len(kinds)]]):
+            tmpl, shape = DC_KINDS[kind]
+            expect = t["expect"]
+            files = {"/v/a.thrift": tmpl % render_list(t["tree"], shape), "#expect": expect or "ok"}
+            if kind == "via-const" and expect:
+                del files["#expect"]      # a constant of type list<C> that leaves f out is a cycle through the constant: other error text
+            if kind == "typedef":
+                del files["#expect"]      # the cast of a default to a typedef that is still being linked depends on the link order (finding of C07/C10)
+            cases.append({"id": "dc-%d-%s" % (i, kind), "files": files, "nonstrict": False})
+    ctx.cov["default_cycle_trees"] = len(trees)
+    return cases
+
+
 def run(ctx):
     drv = vlib.build_harness(ctx)
     rng = random.Random(ctx.seed)
@@ -48,6 +93,7 @@ def run(ctx):
                "typedef list<L> L", "typedef map<string, M> M\nstruct S { 1: optional M m }", "struct S { 1: required S s }", "const list<i32> c = []\nconst map<string, list<i32>> m = {}"]
         for k, body in enumerate(odd):
             cases.append({"id": "odd-%d" % k, "files": {"/v/a.thrift": body + "\n"}, "nonstrict": False})
+        cases += default_cycle_cases(ctx, rng)
         extra = []
         rand_args = ["-builtin", "-corpus", corpus, "-random", "4000" if ctx.quick() else "300000"]
     rows, crashes = vlib.run_driver_batches(ctx, drv, "c08", cases, args=extra, batch=max(20, len(cases) // 32 + 1),
@@ -57,9 +103,11 @@ def run(ctx):
             case.pop(k, None)
         vlib.report_failure(ctx, case, {"failed": ["process-died:" + how], "output": out[:700]}, case=case)
     ctx.evals = len(rows)
-    bad, _ = vlib.validate_trace(ctx, "C08Trace", rows, canary=canary, shard=4000, timeout=3000)
+    bad, drift = vlib.validate_trace(ctx, "C08Trace", rows, canary=canary, shard=4000, timeout=3000)
     for row, why in bad:
         vlib.report_failure(ctx, row, {"failed": why, "id": row.get("id")}, case={"files": row["files"]})
+    for row, why in drift:
+        ctx.drift.append({"id": row.get("id"), "files": row["files"], "cok": row["cok"], "cerr": row["cerr"][:200], "model_predicates": why})
     ctx.cov["distinct_nontrivial"] = vlib.distinct_count(rows, lambda r: r["files"])
     ctx.cov["by_source"] = {s: sum(1 for r in rows if r["src"] == s) for s in sorted({r["src"] for r in rows})}
     ctx.cov["compiled_ok"] = sum(1 for r in rows if r["cok"])
